@@ -470,6 +470,14 @@ Proof.
   rewrite S in K. assert (Some (2, 0, 0) = Some (2, 2, 0)) as X by (apply K; vm_compute; reflexivity). discriminate X.
 Qed.
 
+(* The loaders of this slice are those of the C01 load-path model (Sys/TopicLoad.v, corresponded to the code by the C01 check
+   on lastID / delID / want / given) with the marks added: forgetting read / recv / del gives exactly C01's result - same
+   store calls, same branches, same errors, same store, same counters, same modes. *)
+Theorem c09_load_refines_c01_p2p : forall f s n u1 u2, forget_r (kinit_p2p f s n u1 u2) = init_p2p f s n u1 u2.
+Proof. exact kinit_p2p_forget. Qed.
+Theorem c09_load_refines_c01_sys : forall f s n, forget_r (kinit_sys f s n) = init_sys f s n.
+Proof. exact kinit_sys_forget. Qed.
+
 (* ---- the same slice over EVERY HISTORY of a p2p topic (Sys/LoadMarksC09Hist.v): any notes with any sequence numbers,
    publishes, unsubscriptions, re-subscriptions by EITHER party, by usrXXX or by p2pXXX name, idle unloads, restarts, any
    failing or crashing store call, from any stored state [s] with one row per user, rows of the two parties only, no row
@@ -554,6 +562,8 @@ Print Assumptions c09_reload_stale_note_silent.
 Print Assumptions c09_p2p_stale_note_silent.
 Print Assumptions c09_load_example.
 Print Assumptions c09_cache_marks_equal_stored_always_refuted.
+Print Assumptions c09_load_refines_c01_p2p.
+Print Assumptions c09_load_refines_c01_sys.
 Print Assumptions c09_p2p_store_monotone.
 Print Assumptions c09_p2p_store_not_ahead.
 Print Assumptions c09_p2p_reload_restores_stored_marks.
